@@ -144,6 +144,7 @@ impl<'a> W<'a> {
                 let (ch, d) = (self.chunks(), self.disp());
                 let ksrc = match self.rng.below(8) {
                     0 => 2,
+                    2 => 3,
                     1 if key.len() == 32 && Pt::decode(&arr32(&key)).map(|p| p.is_identity()).unwrap_or(false) => 1,
                     _ => 0,
                 };
@@ -269,6 +270,16 @@ impl<'a> W<'a> {
 
     /// a produced signature goes to verifiers: one undamaged path, one through the adversary, and a batch queue
     fn forward(&mut self, key: [u8; 32], m: Vec<u8>, sig: Vec<u8>, mode: u8, ctx: Option<Vec<u8>>) {
+        if mode == 6 {
+            // signed under the stub digest: a verifier using the same stub challenge accepts, SHA-512 verifiers decide by the model
+            if let Some(c) = &ctx {
+                if c.len() >= 128 {
+                    self.send(Msg::Triple { mode: 7, key: key.to_vec(), m: m.clone(), sig: sig.clone(), ctx: None, chosen: Some(refmodel::arr64(&c[64..128])) });
+                }
+            }
+            self.send(Msg::Triple { mode: 0, key: key.to_vec(), m, sig, ctx: None, chosen: None });
+            return;
+        }
         let prehashed = !matches!(mode % 6, 0 | 1 | 4);
         let vmodes: &[u8] = if prehashed { &[3, 4, 6, 8, 10] } else { &[0, 1, 2, 5, 7] };
         let vctx = if prehashed { Some(ctx.clone().unwrap_or_default()) } else { None };
@@ -603,7 +614,12 @@ impl<'a> W<'a> {
                 let mut sg = [0u8; 64];
                 sg[..32].copy_from_slice(&rp.encode());
                 sg[32..].copy_from_slice(&r.to_bytes());
-                self.send(Msg::Triple { mode: 7, key: key.to_vec(), m: m.clone(), sig: sg.to_vec(), ctx: None, chosen: Some(chosen) });
+                if self.rng.coin() {
+                    self.send(Msg::Triple { mode: 7, key: key.to_vec(), m: m.clone(), sig: sg.to_vec(), ctx: None, chosen: Some(chosen) });
+                } else {
+                    let cx = self.rng.bytes(3);
+                    self.send(Msg::Triple { mode: 11, key: key.to_vec(), m: m.clone(), sig: sg.to_vec(), ctx: Some(cx), chosen: Some(chosen) });
+                }
             }
         }
         if !prehashed && self.rng.chance(1, 3) {
@@ -615,7 +631,7 @@ impl<'a> W<'a> {
     // ------------------------------------------------------------ batch flows
     fn flush(&mut self, q: u8, clear: bool) {
         let d = self.disp();
-        let var = self.rng.below(5) as u8;
+        let var = self.rng.below(6) as u8;
         let n = 64u16;
         let arg: Vec<u16> = match var {
             2 => {
@@ -623,9 +639,21 @@ impl<'a> W<'a> {
                 (0..k).map(|_| self.rng.below(400) as u16).collect()
             }
             3 => vec![self.rng.below(400) as u16],
+            5 => {
+                bump(&mut self.c, "fault:batch_adaptive_S_shift");
+                vec![self.rng.below(1024) as u16, self.rng.below(1024) as u16]
+            }
             4 => {
                 bump(&mut self.c, "fault:batch_mismatched_lengths");
-                (0..3).map(|_| self.rng.below(n as u64) as u16).collect()
+                // lengths biased to the edges: empty slices, one short, full
+                (0..3)
+                    .map(|_| match self.rng.below(4) {
+                        0 => 0,
+                        1 => 1,
+                        2 => 1000,
+                        _ => self.rng.below(n as u64) as u16,
+                    })
+                    .collect()
             }
             _ => vec![],
         };
@@ -634,7 +662,7 @@ impl<'a> W<'a> {
     }
 
     fn batch_scenario(&mut self) {
-        let sizes_q: [(usize, u32); 13] = [(0, 3), (1, 6), (2, 8), (3, 8), (5, 8), (8, 8), (16, 6), (32, 4), (64, 3), (93, 1), (94, 2), (95, 2), (96, 1)];
+        let sizes_q: [(usize, u32); 14] = [(0, 3), (1, 6), (2, 8), (3, 8), (5, 8), (8, 8), (16, 6), (32, 4), (64, 3), (93, 1), (94, 2), (95, 2), (96, 1), (300, 1)];
         let sizes_t: [(usize, u32); 5] = [(128, 2), (249, 1), (250, 1), (399, 1), (400, 1)];
         let mut sizes = sizes_q.to_vec();
         if self.thorough {
@@ -701,7 +729,16 @@ impl<'a> W<'a> {
                 11 => {
                     // two cooperating entries: only the S halves swapped, so the S terms still sum to the honest total
                     bump(&mut self.c, "fault:batch_S_halves_swapped");
-                    let other = (pos + 1 + self.rng.below(n.max(2) as u64 - 1) as usize) % n;
+                    let mut other = (pos + 1 + self.rng.below(n.max(2) as u64 - 1) as usize) % n;
+                    if self.rng.coin() {
+                        // partner at a structured distance (block sizes an implementation might use)
+                        let dist = [1usize, 2, 8, 16, 32, 64, 128, 256, 512][self.rng.below(9) as usize];
+                        if pos + dist < n {
+                            other = pos + dist;
+                        } else if pos >= dist {
+                            other = pos - dist;
+                        }
+                    }
                     if other != pos {
                         let (a, b) = (entries[pos].2[32..].to_vec(), entries[other].2[32..].to_vec());
                         entries[pos].2[32..].copy_from_slice(&b);
@@ -1049,8 +1086,22 @@ pub fn generate(seed: u64, run: u64, focus: &str, thorough: bool) -> Plan {
                 let s = w.rng.below(nsigners as u64) as u8;
                 let ml = w.msg_len();
                 let m = w.rng.bytes(ml);
-                let mode = w.rng.below(6) as u8;
-                let ctx = if matches!(mode, 2 | 3 | 5) { w.ctx_choice() } else { None };
+                let mode = w.rng.below(7) as u8;
+                let ctx = if mode == 6 {
+                    // stub digest for both hashes of raw_sign: chosen nonce hash and challenge hash
+                    bump(&mut w.c, "fault:chosen_signing_hashes");
+                    let mut v = w.rng.bytes(128);
+                    if w.rng.chance(1, 4) {
+                        for b in v[..64].iter_mut() {
+                            *b = 0; // nonce r = 0: R is the identity
+                        }
+                    }
+                    Some(v)
+                } else if matches!(mode, 2 | 3 | 5) {
+                    w.ctx_choice()
+                } else {
+                    None
+                };
                 w.send(Msg::SignReq { s, m, mode, ctx });
                 if w.rng.chance(1, 6) {
                     let s2 = w.rng.below(nsigners as u64) as u8;
